@@ -86,4 +86,19 @@ META = {
         assumptions=["missing keys of one dict node are expected as ONE NoRequiredFieldsLoadError at that node (likewise unknown keys under ExtraForbid); "
                      "a length / container fault makes its node a leaf; unions are leaves (one UnionLoadError at their trail)"],
     ),
+    "C09": _m(
+        "provider alphabet = 12 predicate forms (exact type, other exact type, abstract class, runtime protocol, field id, regex, P[Model].field, negation, ANY, "
+        "ANY&~type, model, parametrised generic) x 4 handler kinds (plain, Chain.FIRST, Chain.LAST, declining) = 48 providers; EXHAUSTIVE over all recipes of length <= 2 "
+        "(quick; <= 3 thorough) x 5 request types (str, int, List[str], Dict[str,str], a model with 3 fields => 9 request sites); random recipes of length 3-8 through "
+        "plain / extend() / replace() / class-level recipes along a retort-subclass MRO / retort-inside-recipe; dumper chains; bound(Model, inner retort). Two oracles: the "
+        "router trace monitor checks every route_handler call against linear first-match over the original checkers (consulted-twice, not-first-match, early stop), and "
+        "marker loaders with call logs are compared with a reference interpreter of the chain of responsibility. distinct = (variant, recipe, request); non-trivial = "
+        ">= 2 providers in the recipe",
+        cases=(60, 1500), budget=(50, 420),
+        minimums={"quick": {"recipes_x_requests": 8000, "router_routes": 100000, "exhaustive_recipes": 2000, "variant_extend": 50, "variant_subclass": 20,
+                            "variant_inner-retort": 20, "dumper_chains": 200, "distinct_nontrivial": 8000}},
+        exhaustive={"quick": False, "thorough": False},
+        assumptions=["reference interpreter models strict coercion with the first error aborting (retorts are run with DebugTrail.DISABLE)",
+                     "router monitor wraps OperatingRetort._create_router / BasicRequestBus._send_inner / *Router.route_handler from the harness; its own call counts are asserted (router_routes)"],
+    ),
 }
